@@ -1,6 +1,7 @@
 """c20 — generation modes agree: source-map = base code (theorem + token streams); modifier vs base differential."""
 import gen_common
 import gen_modes
+import probes
 
 DEP_FILES = ["GenOutModel.v", "GenOutProofs.v"]
 PID = "C20"
@@ -9,4 +10,11 @@ PID = "C20"
 def run(chk):
     chk.recheck_proofs()
     gen_modes.apply(chk, PID)
+    base, _ = probes.run_probe("F10base")
+    verdict, detail = probes.run_probe("F10")
+    chk.count(2, key=("probe", "F10"))
+    chk.cov["correspondence"]["probe_F10_local_type"] = {"base_mode": base, "modifier_mode": verdict}
+    if base == "ok" and verdict != "ok":
+        chk.violate("probe LocalType (a flow of the modifier-supported subset whose tasks use a function-local type): base-mode output works, modifier mode: " + verdict,
+                    {"probe": "F10", "source": probes.F10, "detail": detail})
     chk.assumptions += gen_common.ASSUMPTIONS + ["modifier mode is decided by differential execution only (no model of internal/modifier)"]
